@@ -19,7 +19,7 @@ From RV Require Import Base.
 From RV.Model Require Import Utf8 Indexer CodePointSet Insn IR Optimizer Unfold Emit Pike BT Exec Fold.
 From RV.Spec Require Import IRSem.
 From RV.Spec Require Import IRShape.
-From RV.Proofs Require Import PikeDen PikeCorrect PikeTop BTDen BTCorrect BTTop IndexerFacts Agree.
+From RV.Proofs Require Import PikeDen PikeCorrect PikeTop BTDen BTCorrect BTTop IndexerFacts Agree Utf8Facts Utf8Valid.
 From RV.Gen Require Import FoldTables.
 
 Theorem c02_pikevm_search_is_ir_semantics : forall ix h utf16 unicode ml n body prog names fuel tries p r,
@@ -73,6 +73,22 @@ Theorem c02_engines_agree_ascii : forall h utf16 unicode ml n body prog names fu
     fst (pk_search ascii_indexer prog h budget pfuel tries (pk_init_state prog p) np) /\
     fst (pk_search ascii_indexer prog h budget pfuel tries (pk_init_state prog p) np) = result_of ascii_indexer h r.
 Proof. exact engines_agree_ascii. Qed.
+
+(* on well-formed UTF-8 text (utf8_chars splits it into well-formed characters) from a start at a character boundary,
+   the walk hypothesis is a theorem *)
+Theorem c02_engines_agree_valid_utf8 : forall fold h cs utf16 unicode ml n body prog names fuel tries p r,
+  utf8_chars (length h) h = Some cs -> Utf8Valid.bnd cs p ->
+  top_shape n body -> emit utf16 unicode ml n = Ok (prog, names) -> bt_wf (p_groups prog) (NCat body) = true ->
+  ir_search (utf8_indexer fold) unicode utf16 h fuel (NCat body) (p_groups prog) tries p = Some r ->
+  exists f0 kb kp, forall pfuel nb np budget, (f0 <= pfuel)%nat -> nb + kb <= budget -> np + kp <= budget ->
+    xobs (fst (bt_search (utf8_indexer fold) prog h budget pfuel (fun _ => true) tries (bt_init prog) p nb)) =
+    fst (pk_search (utf8_indexer fold) prog h budget pfuel tries (pk_init_state prog p) np) /\
+    fst (pk_search (utf8_indexer fold) prog h budget pfuel tries (pk_init_state prog p) np) = result_of (utf8_indexer fold) h r.
+Proof.
+  intros fold h cs utf16 unicode ml n body prog names fuel tries p r Hch Hp.
+  destruct (utf8_chars_ok _ _ _ Hch) as [Hw Hcat]. subst h.
+  apply engines_agree_utf8. apply walk_ok_utf8; assumption.
+Qed.
 
 (* Non-vacuity: a capture group under a lazy loop with a backreference and a lookbehind, UTF-8 mode.
    (?:(a|b)+?)\1(?<=bb) on "abb": the IR semantics is defined and yields 0..3 with group 1 = 1..2. *)
